@@ -27,7 +27,7 @@ TYPES = ["TInt", "TLong", "TFloat", "TDouble", "TBool", "TChar", "TString", "TEn
 LIT = {"TInt": "1", "TLong": "2L", "TFloat": "1.5", "TDouble": "2.5d", "TBool": "true",
        "TChar": "'a'", "TString": "\"s\"", "TEnum": "E::B"}
 BINOPS = [("Add", "+"), ("Sub", "-"), ("Mul", "*"), ("Div", "/"), ("Mod", "%"),
-          ("Lt", "<"), ("Gt", ">"), ("Lte", "<="), ("Gte", ">="), ("Eq", "=="), ("Neq", "!="),
+          ("OLt", "<"), ("OGt", ">"), ("OLe", "<="), ("OGe", ">="), ("OEq", "=="), ("ONe", "!="),
           ("And", "&&"), ("Or", "||"),
           ("BAnd", "&&&"), ("BOr", "|||"), ("BXor", "^^^"), ("Shl", "<<<"), ("Shr", ">>>")]
 UNOPS = [("Neg", "-"), ("Not", "!"), ("BNot", "~~~")]
@@ -39,8 +39,8 @@ CONVNAME = {("int", "long"): "I2L", ("int", "float"): "I2F", ("int", "double"): 
             ("long", "int"): "L2I", ("long", "float"): "L2F", ("long", "double"): "L2D",
             ("float", "int"): "F2I", ("float", "long"): "F2L", ("float", "double"): "F2D",
             ("double", "int"): "D2I", ("double", "long"): "D2L", ("double", "float"): "D2F"}
-BINNAME = {"add": "Add", "sub": "Sub", "mul": "Mul", "div": "Div", "mod": "Mod", "lt": "Lt",
-           "gt": "Gt", "lte": "Lte", "gte": "Gte", "eq": "Eq", "neq": "Neq",
+BINNAME = {"add": "Add", "sub": "Sub", "mul": "Mul", "div": "Div", "mod": "Mod", "lt": "OLt",
+           "gt": "OGt", "lte": "OLe", "gte": "OGe", "eq": "OEq", "neq": "ONe",
            "bin and": "BAnd", "bin or": "BOr", "bin xor": "BXor", "bin shl": "Shl",
            "bin shr": "Shr"}
 
